@@ -1,14 +1,17 @@
 """C16 - equal Boolean functions share one OBDD under every creation / drop /
 garbage-collection history.
 
-One run = one history over a pool of OBDD slots and two variable orderings.
-The simulator owns: the operation sequence, when a dropped diagram really
-dies (refcount drop vs. parked in a reference cycle), and every instant at
-which the cyclic collector runs - between operations and at chosen line events
-*inside* library operations (S4 seam, sys.settrace).
+One run = one history over a pool of OBDD slots and 2-3 variable orderings of
+a universe of 4-80 variables.  The simulator owns: the operation sequence,
+when a dropped diagram really dies (refcount drop vs. parked in a reference
+cycle), and every instant at which the cyclic collector runs - between
+operations and at chosen line events *inside* library operations (S4 seam,
+sys.settrace).
 
-Reference model: a 16-bit truth table per slot, computed from the meaning of
-the operations, never from the diagram.
+Reference model: per slot the function its construction history denotes, as a
+*sparse truth table* (essential support, table over the support), computed
+from the meaning of the operations, never from the diagram.  Two models are
+equal iff they are the same pair, whatever the size of the universe.
 """
 
 import gc
@@ -23,54 +26,127 @@ from .runner import run_isolated
 LINE_SPAN = {'build': 4000, 'combine': 900, 'invert': 600, 'restrict': 400,
              'dnf': 30000, 'bad_build': 4000, 'bad_combine': 50}
 
-ALLVARS = ['a', 'b', 'c', 'd', 'e', 'f']
-VARS = ['a', 'b', 'c', 'd']
-TT = {'a': 0xAAAA, 'b': 0xCCCC, 'c': 0xF0F0, 'd': 0xFF00}
-MASK = 0xFFFF
-NASG = 16
+MAXSUP = 10          # operations whose result would depend on more variables
+                     # than this are skipped (the model stays cheap)
 
 
-def set_universe(nv):
-    """The variable universe of a run: nv variables, truth tables are
-    2**nv-bit integers.  Called on entry of gen_plan and execute, so the
-    module state never carries over from one run to another."""
-    global VARS, TT, MASK, NASG
-    VARS = ALLVARS[:nv]
-    NASG = 1 << nv
-    MASK = (1 << NASG) - 1
-    TT = {}
-    for j, v in enumerate(VARS):
-        t = 0
-        for k in range(NASG):
-            if (k >> j) & 1:
-                t |= 1 << k
-        TT[v] = t
-NSLOTS = 6
+def universe(nv):
+    return ['a', 'b', 'c', 'd', 'e', 'f'][:nv] + \
+        ['v{}'.format(i) for i in range(6, nv)]
+
+
+# ---------------------------------------------------------------------------
+# the model: a function is (vs, tt) - vs a sorted tuple of variable names it
+# essentially depends on, tt its truth table over those (bit k <-> the
+# assignment giving vs[j] the value (k >> j) & 1).  Normal form, so equality
+# of functions is equality of pairs.
+
+def fn_norm(vs, tt):
+    vs = list(vs)
+    j = 0
+    while j < len(vs):
+        n = len(vs)
+        lo = hi = 0
+        kk = 0
+        for k in range(1 << n):
+            if not (k >> j) & 1:
+                b0 = (tt >> k) & 1
+                b1 = (tt >> (k | (1 << j))) & 1
+                if b0:
+                    lo |= 1 << kk
+                if b1:
+                    hi |= 1 << kk
+                kk += 1
+        if lo == hi:
+            del vs[j]
+            tt = lo
+        else:
+            j += 1
+    return (tuple(vs), tt)
+
+
+def fn_lift(f, vs2):
+    vs, tt = f
+    if tuple(vs2) == vs:
+        return tt
+    idx = [vs2.index(v) for v in vs]
+    out = 0
+    for k in range(1 << len(vs2)):
+        kk = 0
+        for j, i in enumerate(idx):
+            if (k >> i) & 1:
+                kk |= 1 << j
+        if (tt >> kk) & 1:
+            out |= 1 << k
+    return out
+
+
+def fn_const(b):
+    return ((), 1 if b else 0)
+
+
+def fn_var(v):
+    return ((v,), 0b10)
+
+
+def fn_not(f):
+    vs, tt = f
+    return (vs, (~tt) & ((1 << (1 << len(vs))) - 1))
+
+
+def fn_apply(op, f, g):
+    """None when the result could depend on more than MAXSUP variables."""
+    vs = tuple(sorted(set(f[0]) | set(g[0])))
+    if len(vs) > MAXSUP:
+        return None
+    a = fn_lift(f, vs)
+    b = fn_lift(g, vs)
+    mask = (1 << (1 << len(vs))) - 1
+    if op == '&':
+        t = a & b
+    elif op == '|':
+        t = a | b
+    else:
+        t = a ^ b
+    return fn_norm(vs, t & mask)
+
+
+def fn_restrict(f, var, val):
+    vs, tt = f
+    if var not in vs:
+        return f
+    j = vs.index(var)
+    n = len(vs)
+    out = 0
+    for k in range(1 << n):
+        kk = (k | (1 << j)) if val else (k & ~(1 << j))
+        if (tt >> kk) & 1:
+            out |= 1 << k
+    return fn_norm(vs, out)
+
+
+def fn_json(f):
+    return [list(f[0]), '{:x}'.format(f[1])]
 
 
 # ---------------------------------------------------------------------------
 # expressions: ['v', name] ['c', 0|1|True|False] ['~', e] ['not', e]
 #              ['&', e, e] ['|', e, e] ['and', e, e, ...] ['or', e, e, ...]
 
-def expr_tt(e):
+def expr_fn(e):
     op = e[0]
     if op == 'v':
-        return TT[e[1]]
+        return fn_var(e[1])
     if op == 'c':
-        return MASK if e[1] in (1, True, '1', 'True') else 0
+        return fn_const(e[1] in (1, True, '1', 'True'))
     if op in ('~', 'not'):
-        return (~expr_tt(e[1])) & MASK
-    if op in ('&', 'and'):
-        r = MASK
-        for x in e[1:]:
-            r &= expr_tt(x)
-        return r
-    if op in ('|', 'or'):
-        r = 0
-        for x in e[1:]:
-            r |= expr_tt(x)
-        return r
-    raise core.HarnessError('bad expr {}'.format(e))
+        return fn_not(expr_fn(e[1]))
+    r = expr_fn(e[1])
+    for x in e[2:]:
+        r = fn_apply('&' if op in ('&', 'and') else '|', r, expr_fn(x))
+        if r is None:
+            return None
+    return r
 
 
 def expr_text(e):
@@ -87,42 +163,32 @@ def expr_text(e):
     return '(' + sym.join('({})'.format(expr_text(x)) for x in e[1:]) + ')'
 
 
-def gen_expr(rng, depth, nvars):
+def gen_expr(rng, depth, pool):
     if depth == 0 or rng.random() < 0.25:
         if rng.random() < 0.12:
             return ['c', rng.choice([0, 1, 'True', 'False'])]
-        return ['v', rng.choice(VARS[:nvars])]
+        return ['v', rng.choice(pool)]
     op = rng.choice(['~', 'not', '&', '|', '&', '|', 'and', 'or'])
     if op in ('~', 'not'):
-        return [op, gen_expr(rng, depth - 1, nvars)]
+        return [op, gen_expr(rng, depth - 1, pool)]
     k = 2 if op in ('&', '|') else rng.choice([2, 2, 3])
-    return [op] + [gen_expr(rng, depth - 1, nvars) for _ in range(k)]
+    return [op] + [gen_expr(rng, depth - 1, pool) for _ in range(k)]
 
 
-def tt_dnf_text(tt, nvars=4):
-    """Canonical sum-of-products text of a truth table."""
+def fn_dnf_text(f):
+    """Canonical sum-of-products text of a model function."""
+    vs, tt = f
+    n = len(vs)
     if tt == 0:
         return '0'
-    if tt == MASK:
+    if tt == (1 << (1 << n)) - 1:
         return '1'
     terms = []
-    for k in range(NASG):
+    for k in range(1 << n):
         if (tt >> k) & 1:
-            lits = []
-            for j, v in enumerate(VARS):
-                lits.append(v if (k >> j) & 1 else '~' + v)
+            lits = [v if (k >> j) & 1 else '~' + v for j, v in enumerate(vs)]
             terms.append('(' + ' & '.join(lits) + ')')
     return ' | '.join(terms)
-
-
-def cofactor(tt, var, val):
-    j = VARS.index(var)
-    r = 0
-    for k in range(NASG):
-        kk = (k | (1 << j)) if val else (k & ~(1 << j))
-        if (tt >> kk) & 1:
-            r |= 1 << k
-    return r
 
 
 # ---------------------------------------------------------------------------
@@ -130,11 +196,15 @@ def cofactor(tt, var, val):
 
 def gen_plan(seed):
     rng = random.Random(seed)
-    nv = rng.choice([4, 4, 4, 4, 5, 6])
-    set_universe(nv)
-    nvars = rng.choice([2, 3, 4, nv])
+    nv = rng.choice([4, 4, 4, 4, 4, 5, 6, 6, 9, 12, 40, 80, 120])
+    VARS = universe(nv)
     norder = rng.choice([2, 2, 2, 3])
     nslots = rng.choice([6, 6, 6, 10])
+    crowd = nv >= 40 and rng.random() < 0.7
+    if crowd:
+        # many small diagrams alive at once over many variables: long parent
+        # lists under the terminals, a large unique table
+        nslots = nv + rng.choice([20, 40])
     orderings = []
     for _ in range(norder):
         o = list(VARS)
@@ -143,34 +213,53 @@ def gen_plan(seed):
     if rng.random() < 0.15:
         orderings[1] = list(orderings[0])
     cfg = {
-        'nvars': nvars,
-        'steps': rng.randint(40, 80),
+        'nv': nv, 'norder': norder, 'nslots': nslots, 'crowd': crowd,
+        'poolsize': rng.choice([2, 3, 4, 4]),
+        'steps': rng.randint(180, 300) if crowd else rng.randint(40, 80),
         'midgc_p': rng.choice([0.0, 0.3, 0.6]),
         'midgc_mode': rng.choice(['single', 'single', 'periodic']),
         'period': rng.choice([5, 13, 37]),
         'churn': rng.choice([0, 0, 1]),
-        'depth': rng.choice([2, 3, 3]),
+        'depth': rng.choice([1, 2]) if crowd else rng.choice([2, 3, 3]),
         'w_drop': rng.choice([1, 2, 3]),
+        'w_storm': rng.choice([0, 0, 0, 1]),
         'w_deferred': rng.choice([0, 1, 2, 4]),
         'w_gc': rng.choice([0, 1, 2]),
         'one_ordering': rng.random() < 0.3,
         'w_bad': rng.choice([0, 0, 1]),
         'p_reuse_left': rng.choice([0.0, 0.1, 0.3]),
-        'small_exprs': rng.random() < 0.3,
+        'small_exprs': crowd or rng.random() < 0.3,
         'p_infunc': rng.choice([0.0, 0.3, 0.6]),
     }
+
+    def pool():
+        return rng.sample(VARS, min(len(VARS), cfg['poolsize']))
+
     occ = {}      # slot -> ordering index
     ops = []
-    lastcount = {}
+    if crowd and rng.random() < 0.7:
+        # the usual way to start: one diagram per variable
+        oi = rng.randrange(norder)
+        vs = [v for v in VARS if rng.random() < rng.choice([0.85, 0.95])]
+        vs = vs[:nslots - 10]
+        rng.shuffle(vs)
+        for k, v in enumerate(vs):
+            e = ['v', v] if rng.random() < 0.85 else ['~', ['v', v]]
+            ops.append({'k': 'build', 's': k, 'e': e, 'o': oi})
+            occ[k] = oi
+        cfg['variable_sweep'] = len(vs)
     for step in range(cfg['steps']):
-        kinds = [('build', 4)]
+        filling = crowd and len(occ) < nslots - 6
+        kinds = [('build', 14 if filling else 4)]
         if occ:
             kinds += [('combine', 5), ('invert', 2), ('restrict', 2),
                       ('dnf', 1), ('bad_combine', cfg['w_bad']),
-                      ('drop', cfg['w_drop']),
+                      ('drop', 0.5 if filling else
+                       (3 if crowd else cfg['w_drop'])),
                       ('drop_deferred', cfg['w_deferred'])]
         kinds.append(('gc', cfg['w_gc']))
         kinds.append(('bad_build', cfg['w_bad']))
+        kinds.append(('ordering_storm', 0.3 * cfg['w_storm']))
         kinds.append(('release_exc', cfg['w_bad']))
         tot = sum(w for _, w in kinds)
         x = rng.uniform(0, tot)
@@ -185,15 +274,21 @@ def gen_plan(seed):
         if kind in ('bad_build', 'release_exc', 'bad_combine') and \
                 cfg['w_bad'] == 0:
             kind = 'build'
-        slot = rng.randrange(nslots)
+        if kind == 'ordering_storm' and cfg['w_storm'] == 0:
+            kind = 'build'
+        if filling:
+            free = [s for s in range(nslots) if s not in occ]
+            slot = rng.choice(free)
+        else:
+            slot = rng.randrange(nslots)
         op = None
         if kind == 'build':
             oi = 0 if cfg['one_ordering'] else rng.randrange(norder)
             d = cfg['depth']
             if cfg['small_exprs'] and rng.random() < 0.6:
-                d = rng.choice([0, 1])
+                d = rng.choice([0, 0, 0, 1] if crowd else [0, 1])
             op = {'k': 'build', 's': slot,
-                  'e': gen_expr(rng, d, nvars), 'o': oi}
+                  'e': gen_expr(rng, d, pool()), 'o': oi}
             occ[slot] = oi
         elif kind == 'combine':
             a = rng.choice(sorted(occ))
@@ -209,7 +304,10 @@ def gen_plan(seed):
             occ[slot] = occ[a]
         elif kind == 'restrict':
             a = rng.choice(sorted(occ))
+            # 'u' picks, at execution time, a variable of the operand's
+            # support (or, one time in four, any variable of the universe)
             op = {'k': 'restrict', 's': slot, 'a': a,
+                  'u': rng.random(), 'any': rng.random() < 0.25,
                   'v': rng.choice(VARS), 'b': rng.choice([0, 1, True, False])}
             occ[slot] = occ[a]
         elif kind == 'bad_build':
@@ -217,7 +315,7 @@ def gen_plan(seed):
             # mentions a variable outside the ordering; the exception (and
             # through its traceback the frames holding partial results) is
             # kept until a later release_exc
-            e = gen_expr(rng, cfg['depth'], nvars)
+            e = gen_expr(rng, cfg['depth'], pool())
             op = {'k': 'bad_build', 'o': rng.randrange(norder),
                   'e': ['&', e, ['v', 'zz']] if rng.random() < 0.5
                   else ['|', ['v', 'zz'], e]}
@@ -232,13 +330,19 @@ def gen_plan(seed):
                 op = {'k': 'gc'}
         elif kind == 'release_exc':
             op = {'k': 'release_exc'}
+        elif kind == 'ordering_storm':
+            # many short-lived diagrams under many distinct orderings (an
+            # application that reorders variables), while the pool lives on
+            op = {'k': 'ordering_storm', 'n': rng.choice([20, 40, 70]),
+                  'seed': rng.getrandbits(32)}
         elif kind in ('drop', 'drop_deferred'):
             a = rng.choice(sorted(occ))
             op = {'k': kind, 's': a}
             del occ[a]
         else:
             op = {'k': 'gc'}
-        lib = op['k'] not in ('gc', 'drop', 'drop_deferred', 'release_exc')
+        lib = op['k'] not in ('gc', 'drop', 'drop_deferred', 'release_exc',
+                              'ordering_storm')
         after_zombie = bool(ops) and ops[-1]['k'] == 'drop_deferred'
         if lib and (rng.random() < cfg['midgc_p'] or
                     (after_zombie and cfg['midgc_p'] > 0 and
@@ -269,7 +373,7 @@ def gen_plan(seed):
             # diagram was built (address reuse of a dropped root)
             a, b = op['a'], op['b']
             if a != b and a != op['s'] and b != op['s']:
-                lit = ['v', rng.choice(VARS[:nvars])]
+                lit = ['v', rng.choice(VARS)]
                 e2 = lit if rng.random() < 0.5 else ['~', lit]
                 seq = [{'k': 'drop', 's': b}]
                 if rng.random() < 0.6:
@@ -284,11 +388,6 @@ def gen_plan(seed):
                         else:
                             occ[o2['s']] = occ[a]
                         ops.append(o2)
-    if nv >= 6:
-        # the sum-of-products route is too long over 64 assignments
-        ops = [o if o['k'] != 'dnf' else {'k': 'invert', 's': o['s'],
-                                          'a': o['a']} for o in ops]
-    cfg.update({'nv': nv, 'norder': norder, 'nslots': nslots})
     return {'prop': 'C16', 'nv': nv, 'orderings': orderings,
             'churn': cfg['churn'], 'cfg': cfg, 'ops': ops}
 
@@ -313,7 +412,7 @@ class Violation(Exception):
 def execute(plan):
     """Execute a plan; returns a JSON-able result.  Must run in a process in
     which the BDD library has never been used."""
-    set_universe(plan.get('nv', 4))
+    VARS = universe(plan.get('nv', 4))
     import pyModelChecking.BDD.BDD
     import pyModelChecking.BDD.OBDD
     import _weakrefset
@@ -332,13 +431,13 @@ def execute(plan):
     gc.freeze()
 
     orderings = plan['orderings']
-    slots = {}        # slot -> [obdd, tt_model, ordering index, route]
-    limbo_count = [0]
+    slots = {}        # slot -> [obdd, model function, ordering index, route]
     held_exc = []
     probes = {}
     faults = {'gc_between_ops': 0, 'gc_mid_op': 0, 'drop_refcount': 0,
               'drop_deferred': 0, 'churn': 0}
-    events = []
+    step_digests = []
+    tail = []
     notes = []
     seen_ids = set()
     dead_ids = set()
@@ -351,8 +450,7 @@ def execute(plan):
     NT = BDDm.BDDNonTerminalNode
 
     def live_nodes():
-        return [o for o in gc.get_objects() if type(o) is NT
-                or (isinstance(o, NT))]
+        return [o for o in gc.get_objects() if isinstance(o, NT)]
 
     func_lines = {}      # function name -> line events so far in this run
     func_order = []
@@ -406,19 +504,36 @@ def execute(plan):
             return local_trace
         return None
 
-    def evaluate(obdd, step):
-        """Truth table of the diagram, by walking it."""
+    def evaluate(obdd, vs):
+        """Truth table of the diagram over the variables vs, by walking it;
+        None if the diagram tests a variable outside vs.  With more than 7
+        variables a fixed sample of assignments is used and the result is a
+        masked table (second return value = the mask)."""
         t0 = BDDNode(0)
         t1 = BDDNode(1)
+        n = len(vs)
+        if n <= 7:
+            asg = range(1 << n)
+            mask = (1 << (1 << n)) - 1
+        else:
+            r3 = random.Random(n)
+            asg = sorted(set([0, (1 << n) - 1] +
+                             [r3.randrange(1 << n) for _ in range(64)]))
+            mask = 0
+            for k in asg:
+                mask |= 1 << k
+        pos = dict((v, j) for j, v in enumerate(vs))
         tt = 0
-        for k in range(NASG):
+        for k in asg:
             node = obdd.root
             hops = 0
             while isinstance(node, NT):
-                v = node.var
-                node = node.high if (k >> VARS.index(v)) & 1 else node.low
+                j = pos.get(node.var)
+                if j is None:
+                    return None, mask
+                node = node.high if (k >> j) & 1 else node.low
                 hops += 1
-                if hops > 8:
+                if hops > len(VARS) + 1:
                     raise Violation('C16/J3-structure',
                                     'path longer than the variable count')
             if node is t1:
@@ -427,51 +542,71 @@ def execute(plan):
                 raise Violation('C16/J4-terminals',
                                 'diagram bottoms out in a node that is not '
                                 'the terminal singleton')
-        return tt
+        return tt, mask
 
-    def check_invariants(step):
+    def denotes(s):
+        """J2 for one slot: does the diagram evaluate to the model?"""
+        ob, fm, oi, _ = slots[s]
+        tt, mask = evaluate(ob, fm[0])
+        return tt is not None and tt == (fm[1] & mask), tt
+
+    def check_pair(s, t, eqm):
+        oa, fa, oia, ra = slots[s]
+        ob, fb, oib, rb = slots[t]
+        if orderings[oia] != orderings[oib]:
+            return
+        eq1 = (oa == ob)
+        eq2 = (ob == oa)
+        same_root = oa.root is ob.root
+        same_fn = (fa == fb)
+        if eqm is not None:
+            eqm.append([s, t, bool(eq1)])
+        if same_fn and ra != rb:
+            probe('same_function_by_different_routes')
+        if eq1 != eq2:
+            raise Violation('C16/J1-canonicity',
+                            'equality not symmetric for slots {} {}'
+                            .format(s, t))
+        if bool(eq1) != same_root:
+            raise Violation('C16/J1-canonicity',
+                            '== ({}) disagrees with root identity '
+                            '({}) for slots {} {}'
+                            .format(eq1, same_root, s, t))
+        if bool(eq1) != same_fn:
+            raise Violation(
+                'C16/J1-canonicity',
+                'slots {} and {} (one ordering): the construction histories '
+                'denote {} and {} ({}), the diagrams print as [{}] and [{}], '
+                'but == is {}'.format(
+                    s, t, fn_json(fa), fn_json(fb),
+                    'the same function' if same_fn else 'different functions',
+                    str(oa.root)[:120], str(ob.root)[:120], eq1))
+
+    def check_invariants(step, changed, full):
         # J4 terminal singletons
         if BDDNode(0) is not BDDNode(False) or BDDNode(1) is not BDDNode(True)\
                 or BDDNode(0) is BDDNode(1):
             raise Violation('C16/J4-terminals', 'terminal singletons broken')
-        # J2 (denotation) and J1 (canonicity against the model)
-        tts = {}
-        for s in sorted(slots):
-            ob, ttm, oi, _ = slots[s]
-            tts[s] = evaluate(ob, step)
         keys = sorted(slots)
         eqm = []
-        for i, s in enumerate(keys):
-            for t in keys[i + 1:]:
-                oa, ta, oia, ra = slots[s]
-                ob, tb, oib, rb = slots[t]
-                if orderings[oia] != orderings[oib]:
-                    continue
-                eq1 = (oa == ob)
-                eq2 = (ob == oa)
-                same_root = oa.root is ob.root
-                same_fn = (ta == tb)
-                eqm.append([s, t, bool(eq1)])
-                if same_fn and ra != rb:
-                    probe('same_function_by_different_routes')
-                if eq1 != eq2:
-                    raise Violation('C16/J1-canonicity',
-                                    'equality not symmetric for slots {} {}'
-                                    .format(s, t))
-                if bool(eq1) != same_root:
-                    raise Violation('C16/J1-canonicity',
-                                    '== ({}) disagrees with root identity '
-                                    '({}) for slots {} {}'
-                                    .format(eq1, same_root, s, t))
-                if bool(eq1) != same_fn:
-                    raise Violation(
-                        'C16/J1-canonicity',
-                        'slots {} and {} (ordering {}): model truth tables '
-                        '{:x} / {:x}, diagrams evaluate to {:x} / '
-                        '{:x}, but == is {}'.format(
-                            s, t, orderings[oia], ta, tb, tts[s], tts[t],
-                            eq1))
-        mism = [s for s in keys if tts[s] != slots[s][1]]
+        # J1 (canonicity against the model): every pair when `full`, else
+        # every pair that involves the slot written by this step (the OBDD
+        # objects of the other slots did not change)
+        if full:
+            for i, s in enumerate(keys):
+                for t in keys[i + 1:]:
+                    check_pair(s, t, eqm if len(keys) <= 12 else None)
+        elif changed is not None and changed in slots:
+            for t in keys:
+                if t != changed:
+                    check_pair(min(changed, t), max(changed, t), eqm)
+        # J2 (denotation)
+        mism = []
+        for s in (keys if full else
+                  [changed] if changed in slots else []):
+            ok, tt = denotes(s)
+            if not ok:
+                mism.append(s)
         # J3 no two live nodes with one (var, low, high); none redundant
         nodes = live_nodes()
         trip = {}
@@ -489,75 +624,122 @@ def execute(plan):
                                 'two live non-terminal nodes share '
                                 '(var={}, low, high)'.format(n.var))
             trip[key] = n
-        try:
-            reg = BDDNode.nodes()
-        except Exception:
-            reg = None
-        if reg is not None:
-            t2 = set()
-            for n in reg:
-                if isinstance(n, NT):
-                    key = (n.var, id(n.low), id(n.high))
-                    if key in t2:
-                        raise Violation('C16/J3-unique-table',
-                                        'BDDNode.nodes() lists two nodes '
-                                        'with one (var, low, high)')
-                    t2.add(key)
+        if full:
+            try:
+                reg = BDDNode.nodes()
+            except Exception:
+                reg = None
+            if reg is not None:
+                t2 = set()
+                for n in reg:
+                    if isinstance(n, NT):
+                        key = (n.var, id(n.low), id(n.high))
+                        if key in t2:
+                            raise Violation('C16/J3-unique-table',
+                                            'BDDNode.nodes() lists two '
+                                            'nodes with one (var, low, high)')
+                        t2.add(key)
+            reach = {}
+            for s in keys:
+                acc = reach.setdefault(tuple(orderings[slots[s][2]]), set())
+                stack = [slots[s][0].root]
+                while stack:
+                    n = stack.pop()
+                    if isinstance(n, NT) and id(n) not in acc:
+                        acc.add(id(n))
+                        stack.append(n.low)
+                        stack.append(n.high)
+            rs = list(reach.values())
+            for i in range(len(rs)):
+                for j in range(i + 1, len(rs)):
+                    if rs[i] & rs[j]:
+                        probe('node_shared_across_orderings')
         ids = set(id(n) for n in nodes)
-        reach = {}
-        for s in keys:
-            acc = reach.setdefault(tuple(orderings[slots[s][2]]), set())
-            stack = [slots[s][0].root]
-            while stack:
-                n = stack.pop()
-                if isinstance(n, NT) and id(n) not in acc:
-                    acc.add(id(n))
-                    stack.append(n.low)
-                    stack.append(n.high)
-        if len(reach) == 2:
-            ra, rb = reach.values()
-            if ra & rb:
-                probe('node_shared_across_orderings')
         for n in nodes:
             if id(n) not in seen_ids and id(n) in dead_ids:
                 probe('id_reuse_after_death')
         dead_ids.update(seen_ids - ids)
         seen_ids.clear()
         seen_ids.update(ids)
+        mx = 0
+        for t in (BDDNode(0), BDDNode(1)):
+            for nm in ('f_low', 'f_high'):
+                try:
+                    mx = max(mx, len(getattr(t, nm)))
+                except Exception:
+                    pass
+        if mx > probes.get('max_parents_of_a_terminal', 0):
+            probes['max_parents_of_a_terminal'] = mx
         del nodes, trip
-        return tts, eqm, len(ids), mism
+        return eqm, len(ids), mism
 
     def run_op(i, op):
         k = op['k']
         g = op.get('g')
         made = None
         if k == 'gc':
-            n = gc.collect()
+            gc.collect()
             faults['gc_between_ops'] += 1
-            return
+            return None
         if k == 'drop':
             if op['s'] in slots:
                 del slots[op['s']]
                 faults['drop_refcount'] += 1
-            return
+            return None
+        if k == 'ordering_storm':
+            r2 = random.Random(op['seed'])
+            for _ in range(op['n']):
+                o = list(VARS)
+                r2.shuffle(o)
+                v = r2.choice(o)
+                t = OBDD(v if r2.random() < 0.5 else '~' + v, o)
+                del t
+            faults['ordering_storm'] = faults.get('ordering_storm', 0) + 1
+            return None
         if k == 'release_exc':
             if held_exc:
                 del held_exc[:]
                 faults['held_exception_released'] = \
                     faults.get('held_exception_released', 0) + 1
-            return
+            return None
         if k == 'drop_deferred':
             if op['s'] in slots:
                 cell = [slots.pop(op['s'])[0]]
                 cell.append(cell)
                 del cell
-                limbo_count[0] += 1
                 faults['drop_deferred'] += 1
-            return
+            return None
         # operations that run library code, possibly with mid-operation GC
         for need in ('a', 'b'):
             if need in op and op[need] not in slots:
-                return          # operand removed by minimisation: no-op
+                return None     # operand removed by minimisation: no-op
+        # the model first: an operation whose result would depend on too
+        # many variables is skipped altogether
+        fm = None
+        if k == 'build':
+            fm = expr_fn(op['e'])
+        elif k == 'combine':
+            A, B = slots[op['a']], slots[op['b']]
+            if orderings[A[2]] != orderings[B[2]]:
+                return None
+            fm = fn_apply(op['op'], A[1], B[1])
+        elif k == 'invert':
+            fm = fn_not(slots[op['a']][1])
+        elif k == 'restrict':
+            A = slots[op['a']]
+            sup = A[1][0]
+            if sup and not op.get('any'):
+                var = sup[int(op['u'] * len(sup)) % len(sup)]
+            else:
+                var = op['v'] if op['v'] in VARS else VARS[0]
+            fm = fn_restrict(A[1], var, bool(op['b']))
+        elif k == 'dnf':
+            fm = slots[op['a']][1]
+            if len(fm[0]) > 5:
+                return None
+        if fm is None and k in ('build', 'combine'):
+            probe('operation_skipped_support_too_large')
+            return None
         if g is not None:
             if g[0] == 'infunc':
                 # resolve the function by cumulative weight
@@ -588,27 +770,23 @@ def execute(plan):
         try:
             if k == 'build':
                 ob = OBDD(expr_text(op['e']), list(orderings[op['o']]))
-                made = [ob, expr_tt(op['e']), op['o'], 'parse']
+                made = [ob, fm, op['o'], 'parse']
             elif k == 'combine':
                 A = slots[op['a']]
                 B = slots[op['b']]
-                if orderings[A[2]] != orderings[B[2]]:
-                    return
                 if op['op'] == '&':
-                    ob, tt = A[0] & B[0], A[1] & B[1]
+                    ob = A[0] & B[0]
                 elif op['op'] == '|':
-                    ob, tt = A[0] | B[0], A[1] | B[1]
+                    ob = A[0] | B[0]
                 else:
-                    ob, tt = A[0] ^ B[0], A[1] ^ B[1]
-                made = [ob, tt, A[2], 'apply']
+                    ob = A[0] ^ B[0]
+                made = [ob, fm, A[2], 'apply']
             elif k == 'invert':
                 A = slots[op['a']]
-                made = [~A[0], (~A[1]) & MASK, A[2], 'invert']
+                made = [~A[0], fm, A[2], 'invert']
             elif k == 'restrict':
                 A = slots[op['a']]
-                made = [A[0].restrict(op['v'], op['b']),
-                        cofactor(A[1], op['v'], bool(op['b'])), A[2],
-                        'restrict']
+                made = [A[0].restrict(var, op['b']), fm, A[2], 'restrict']
             elif k == 'bad_build':
                 try:
                     OBDD(expr_text(op['e']), list(orderings[op['o']]))
@@ -636,8 +814,8 @@ def execute(plan):
                             faults.get('user_error_mid_history', 0) + 1
             elif k == 'dnf':
                 A = slots[op['a']]
-                made = [OBDD(tt_dnf_text(A[1]), list(orderings[A[2]])),
-                        A[1], A[2], 'dnf']
+                made = [OBDD(fn_dnf_text(fm), list(orderings[A[2]])),
+                        fm, A[2], 'dnf']
             else:
                 raise core.HarnessError('unknown op ' + k)
         finally:
@@ -648,9 +826,12 @@ def execute(plan):
             if isinstance(made[0].root, NT) and id(made[0].root) in seen_ids:
                 probe('result_root_already_existed')
             slots[op['s']] = made
+            return op['s']
+        return None
 
     result = {'violation': None}
     step = -1
+    nops = len(plan['ops'])
     try:
         for step, op in enumerate(plan['ops']):
             if plan.get('churn'):
@@ -658,8 +839,9 @@ def execute(plan):
                 del junk[::2]
                 del junk
                 faults['churn'] += 1
+            changed = None
             try:
-                run_op(step, op)
+                changed = run_op(step, op)
             except Violation:
                 raise
             except Exception as e:
@@ -670,25 +852,34 @@ def execute(plan):
                 probe('operation_raised_' + type(e).__name__)
                 notes.append([step, op['k'], type(e).__name__,
                               str(e)[:200]])
-            tts, eqm, nlive, mism = check_invariants(step)
+            full = len(slots) <= 12 or step % 25 == 24 or step == nops - 1
+            eqm, nlive, mism = check_invariants(step, changed, full)
             if mism:
                 # the diagram denotes something else than its history: try to
                 # witness it as a canonicity failure against a parsed DNF
                 probe('denotation_mismatch')
                 for s in mism:
-                    ob, ttm, oi, _ = slots[s]
-                    w = OBDD(tt_dnf_text(ttm), list(orderings[oi]))
-                    if evaluate(w, step) == ttm and not (w == ob):
+                    ob, fm, oi, _ = slots[s]
+                    if len(fm[0]) > 6:
+                        continue    # no sum-of-products route at this size
+                    w = OBDD(fn_dnf_text(fm), list(orderings[oi]))
+                    tw, mask = evaluate(w, fm[0])
+                    if tw == (fm[1] & mask) and not (w == ob):
                         raise Violation(
                             'C16/J1-canonicity',
-                            'slot {} built by {} must denote {:x} but its '
-                            'diagram evaluates to {:x}; it compares unequal '
-                            'to the parsed sum-of-products of {:x}'.format(
-                                s, slots[s][3], ttm, tts[s], ttm))
+                            'slot {} built by {} must denote {} but its '
+                            'diagram prints as [{}]; it compares unequal '
+                            'to the parsed sum-of-products of that function'
+                            .format(s, slots[s][3], fn_json(fm),
+                                    str(ob.root)[:160]))
                 probe('denotation_mismatch_unwitnessed')
-            events.append([op['k'],
-                           sorted([s, slots[s][1]] for s in slots),
-                           eqm, nlive])
+            rec = [op['k'], changed,
+                   fn_json(slots[changed][1]) if changed in slots else None,
+                   eqm if len(eqm) <= 40 else len(eqm), len(slots), nlive]
+            step_digests.append(core.digest(rec))
+            tail.append(rec)
+            if len(tail) > 3:
+                tail.pop(0)
         # J5 (diagnostic only): nothing but terminals survives
         slots.clear()
         del held_exc[:]
@@ -701,9 +892,14 @@ def execute(plan):
         result['violation'] = {'class': v.cls, 'detail': v.detail,
                                'step': step}
     kinds = [op['k'] for op in plan['ops']]
+    mxp = probes.pop('max_parents_of_a_terminal', 0)
+    if mxp > 64:
+        probe('terminal_with_more_than_64_parents')
+    if mxp > 16:
+        probe('terminal_with_more_than_16_parents')
     result.update({
-        'steps': len(events),
-        'events_digest': core.digest(events),
+        'steps': len(step_digests),
+        'events_digest': core.digest(step_digests),
         'probes': probes,
         'faults': faults,
         'midgc_fired': state['fired'],
@@ -712,7 +908,7 @@ def execute(plan):
             (faults['drop_refcount'] + faults['drop_deferred']) > 0 and
             (faults['gc_between_ops'] + faults['gc_mid_op']) > 0 and
             probes.get('same_function_by_different_routes', 0) > 0),
-        'tail': events[-3:],
+        'tail': tail,
         'op_exceptions': notes[:5],
     })
     return result
